@@ -110,9 +110,11 @@ def run_item(item):
     if item["tier"] == "quick":
         # prefer variety of node kinds within the quick budget
         mine = [mine[i] for i in rng.choice(len(mine), min(len(mine), 12), replace=False)]
+    if item["chunk"] == 0:
+        mine = list(dict.fromkeys([*mine, *[g for g in ("fg_id", "bg_id", "eg_id", "ehe_id", "sn_id", "wthh_id") if g in nodes]]))
     for n_ in mine:
         supply([n_], "same_dtype")
-        if S0[n_].dtype.kind in "ib" and not n_.endswith("_id"):
+        if S0[n_].dtype.kind in "ib":
             supply([n_], "other_dtype")
     for _ in range(2):
         a, b = (nodes[i] for i in rng.choice(len(nodes), 2, replace=False))
